@@ -683,8 +683,8 @@ func (e *engine) doOp(op string) {
 		}
 	case "rw":
 		for _, p := range s.procs {
-			if p.unit == f[1] {
-				s.cursors[p.role] = atoi(f[2])
+			if p.unit == f[1] && atoi(f[2]) < s.cursors[p.role] {
+				s.cursors[p.role] = atoi(f[2]) // a rewind only moves a committed position backwards (redelivery)
 			}
 		}
 	case "dup":
